@@ -152,3 +152,94 @@ Example C04_trace_example :
   trace_ok 2 [ESubmit 0; EAsk 0 false; ESubmit 1; EGet 0; ECancel 1; ESubmit 1; EAsk 1 true; EGet 1]
   = Some 2.
 Proof. vm_compute. reflexivity. Qed.
+
+(** ---- non-vacuity of the hypotheses (audit) ----
+    A method whose supplied batch values DO depend on the state (unlike the rejection instance, where
+    [prepare] is constant): the state is (flag, results so far); a batch is handed the flag; the
+    client computes [i] (flag off) or [10 + i] (flag on); the update appends the result, switches the
+    flag on when the result is 1 and reports a cancellation exactly when the flag changed.  Objective:
+    4 batches.  With max_parallel = 3 and a slow oracle, batches 1 and 2 are submitted with the flag
+    off before batch 0 is read; consuming batch 1 cancels batch 2, which is resubmitted with the flag on. *)
+Definition au_S : Type := (bool * list nat)%type.
+Definition au_obj (s : au_S) : nat := 4.
+Definition au_cons (s : au_S) : nat := List.length (snd s).
+Definition au_prep (s : au_S) (j : nat) : bool := fst s.
+Definition au_comp (i : nat) (p : bool) : nat := if p then 10 + i else i.
+Definition au_upd (s : au_S) (r i : nat) : au_S * bool :=
+  let b' := fst s || Nat.eqb r 1 in ((b', snd s ++ [r]), negb (Bool.eqb b' (fst s))).
+Definition au_init : sched au_S bool := {| st := (false, []); next := 0; pending := [] |}.
+
+Example C04_audit_prepare_stable :
+  forall s r i, snd (au_upd s r i) = false -> forall j, au_prep (fst (au_upd s r i)) j = au_prep s j.
+Proof.
+  intros [b l] r i. unfold au_upd, au_prep. simpl. destruct b, (Nat.eqb r 1); simpl; intros H j;
+    first [discriminate H | reflexivity].
+Qed.
+
+Example C04_schedule_independent_nonvacuous :
+  1 <= 3
+  /\ seq_run au_S nat bool au_obj au_cons au_prep au_comp au_upd 10 (false, []) 0 = Some ((true, [0; 1; 12; 13]), 4)
+  /\ (exists s r i, snd (au_upd s r i) = true /\ au_prep (fst (au_upd s r i)) 0 <> au_prep s 0)
+  /\ exists s' tr',
+       infer au_S nat bool au_obj au_cons au_prep au_comp au_upd 10 3 au_init [false; false; false; false] [] = inl (s', tr')
+       /\ st s' = (true, [0; 1; 12; 13]) /\ pending s' = [] /\ next s' = 4
+       /\ In (ECancel 2) tr' /\ trace_ok 3 tr' = Some 4 /\ trace_spec 3 tr' 4.
+Proof.
+  assert (Hs : seq_run au_S nat bool au_obj au_cons au_prep au_comp au_upd 10 (false, []) 0
+               = Some ((true, [0; 1; 12; 13]), 4)) by (vm_compute; reflexivity).
+  assert (Hm : 1 <= 3) by (repeat constructor).
+  split; [exact Hm|]. split; [exact Hs|].
+  split; [exists (false, []), 1, 1; split; [reflexivity | vm_compute; discriminate]|].
+  destruct (C04_schedule_independent au_S nat bool au_obj au_cons au_prep au_comp au_upd C04_audit_prepare_stable
+              3 10 (false, []) [false; false; false; false] _ _ Hm Hs) as [s' [tr' [A [B [C [D E]]]]]].
+  exists s', tr'. split; [exact A|]. split; [exact B|]. split; [exact C|]. split; [exact D|].
+  split; [|split; [exact E | exact (C04_trace_ok_meaning _ _ _ E)]].
+  unfold au_init in A. vm_compute in A. inversion A; subst. simpl. tauto.
+Qed.
+
+Example C04_every_schedule_trace_meaning_nonvacuous :
+  exists s' tr',
+    infer au_S nat bool au_obj au_cons au_prep au_comp au_upd 10 2 au_init [false; true; false] [] = inl (s', tr')
+    /\ st s' = (true, [0; 1; 12; 13]) /\ trace_spec 2 tr' 4.
+Proof.
+  refine (C04_every_schedule_trace_meaning au_S nat bool au_obj au_cons au_prep au_comp au_upd C04_audit_prepare_stable
+            2 10 (false, []) [false; true; false] _ 4 _ _); [repeat constructor | vm_compute; reflexivity].
+Qed.
+
+(** too little fuel for the sequential run (2 rounds for 4 batches): every schedule runs out of fuel *)
+Example C04_no_scheduler_error_nonvacuous :
+  seq_run au_S nat bool au_obj au_cons au_prep au_comp au_upd 2 (false, []) 0 = None
+  /\ infer au_S nat bool au_obj au_cons au_prep au_comp au_upd 2 3 au_init [false; false] [] = inr EOutOfFuel.
+Proof.
+  assert (Hs : seq_run au_S nat bool au_obj au_cons au_prep au_comp au_upd 2 (false, []) 0 = None)
+    by (vm_compute; reflexivity).
+  split; [exact Hs|].
+  refine (C04_no_scheduler_error au_S nat bool au_obj au_cons au_prep au_comp au_upd C04_audit_prepare_stable
+            3 2 (false, []) [false; false] _ Hs). repeat constructor.
+Qed.
+
+(** [C04_iterate_is_one_step] away from the initial state: after the first iteration (one batch
+    consumed, two pending) the hypotheses hold again, with c = 1 and a non-empty trace. *)
+Example C04_iterate_is_one_step_nonvacuous :
+  exists s tr,
+    1 <= 3 /\ Inv au_S bool au_prep 3 s 1
+    /\ chk_run 3 (0, []) tr = Some (1, idxs bool (pending s))
+    /\ finished au_S bool au_obj au_cons s = false
+    /\ List.length (pending s) = 2 /\ tr = [ESubmit 0; EAsk 0 false; ESubmit 1; EAsk 0 false; ESubmit 2; EGet 0]
+    /\ exists s' orc' tr',
+         iterate au_S nat bool au_obj au_cons au_prep au_comp au_upd 3 s [true] tr = inl (s', orc', tr')
+         /\ st s' = (true, [0; 1]) /\ pending s' = [].
+Proof.
+  assert (Hm : 1 <= 3) by (repeat constructor).
+  destruct (C04_iterate_is_one_step au_S nat bool au_obj au_cons au_prep au_comp au_upd C04_audit_prepare_stable
+              3 au_init [false; false] [] 0 Hm (Inv_initial _ _ _ _ _) eq_refl eq_refl)
+    as [s [orc [tr [Hit [Hinv [Hchk Hst]]]]]].
+  vm_compute in Hit. inversion Hit; subst s orc tr; clear Hit.
+  eexists. eexists. split; [exact Hm|]. split; [exact Hinv|]. split; [exact Hchk|].
+  assert (Hf : finished au_S bool au_obj au_cons
+                 {| st := (false, [0]); next := 3; pending := [(1, false); (2, false)] |} = false) by reflexivity.
+  split; [exact Hf|]. split; [reflexivity|]. split; [reflexivity|].
+  destruct (C04_iterate_is_one_step au_S nat bool au_obj au_cons au_prep au_comp au_upd C04_audit_prepare_stable
+              3 _ [true] _ 1 Hm Hinv Hchk Hf) as [s' [orc' [tr' [Hit' _]]]].
+  exists s', orc', tr'. split; [exact Hit'|]. vm_compute in Hit'. inversion Hit'; subst. split; reflexivity.
+Qed.
